@@ -16,7 +16,7 @@
  4. TRACE   TLC validates verdict = Accept(d) etc. on the records
             (spec/Gate_Trace.tla); Python only counts and reports
 
-thorough runs the whole space through the in-process gate and 960 packages through
+thorough runs the whole space through the in-process gate and 640 packages through
 the command; quick runs every conforming descriptor and 8 seeded members (kind subset
 x shape) of every stratum (violated clause, factory kind, element), 32 through the
 command.
@@ -44,7 +44,7 @@ import random
 
 from vlib import core, tlc
 
-CLI_SAMPLE = {'quick': 32, 'thorough': 960}
+CLI_SAMPLE = {'quick': 32, 'thorough': 640}
 PER_STRATUM_QUICK = 8
 
 
@@ -228,7 +228,10 @@ def run(pid, tier, seed, replay=None):
         pinned_model_accepts_violating=sum(1 for _, w in disagree if w == 'accepts-violating'),
         distinct_nontrivial=len({dkey(t['d']) for t in recs.values()}),
     )
-    chk.extra['code_verdicts_differ_exactly_where_pinned_model_does'] = {dkey(recs[i]['d']) for i in bad_ids} == pinned_ids
+    wrong = {dkey(recs[i]['d']) for i in bad_ids}
+    judged = {dkey(t['d']) for t in recs.values()}
+    # reporting only: which transcription of _walk the verdicts of the real gate coincide with
+    chk.extra['real_gate_behaves_like'] = 'repaired traversal (r.feedback())' if not wrong else 'pinned traversal (a.feedback())' if wrong == pinned_ids & judged else 'neither transcription'
     some = rnd.sample(sorted(recs), 4)
     chk.samples = [{'d': recs[i]['d'], 'steps': [{'ev': s['ev'], **{k: s['obs'][k] for k in ('v_list', 'v_scan', 'fired', 'cli_rc', 'sched_ok')}} for s in recs[i]['steps'][1:]]} for i in some]
     chk.assumptions = [
